@@ -231,7 +231,7 @@ func (m *Modifier) fieldsToSign(h *textproto.Header) []string {
 		seen[strings.ToLower(key)] = struct{}{}
 
 		// Add to signing list once per each key use.
-		for field := h.FieldsByKey(key); field.Next(); {
+		for i := fieldCount(h, key); i > 0; i-- {
 			res = append(res, key)
 		}
 		// And once more to "oversign" it.
@@ -244,11 +244,26 @@ func (m *Modifier) fieldsToSign(h *textproto.Header) []string {
 		seen[strings.ToLower(key)] = struct{}{}
 
 		// Add to signing list once per each key use.
-		for field := h.FieldsByKey(key); field.Next(); {
+		for i := fieldCount(h, key); i > 0; i-- {
 			res = append(res, key)
 		}
 	}
 	return res
+}
+
+// fieldCount returns the amount of header fields with the specified name.
+//
+// Names are compared case-insensitively, as DKIM signers and verifiers do.
+// textproto.Header.FieldsByKey is not suitable here: it compares names that
+// are not RFC 7230 tokens (e.g. "X/Foo", valid per RFC 5322) case-sensitively.
+func fieldCount(h *textproto.Header, key string) int {
+	count := 0
+	for field := h.Fields(); field.Next(); {
+		if strings.EqualFold(field.Key(), key) {
+			count++
+		}
+	}
+	return count
 }
 
 type state struct {
